@@ -125,8 +125,9 @@ def run(tier: str) -> int:
                            # the shared partial reached (also through another shared partial) from inside AND after binding blocks: 5-6 steps
                            job("a4", MaxOps=6, MaxDepth=2, Interrupts="FALSE", OnlyOps="OpsLeafLoops")], parallel=4)
         else:
-            rs = run_many([job("a1", MaxOps=5, MaxDepth=3), job("a2", Names='{"a","b"}', MaxOps=4, MaxDepth=3), job("a3", MaxOps=4, GlobalSets="GlobalsQuick"),
-                           job("a4", MaxOps=6, MaxDepth=3, Interrupts="FALSE", OnlyOps="OpsLeafLoops")], parallel=4)
+            rs = run_many([job("a1", MaxOps=4, MaxDepth=3, Interrupts="FALSE"), job("a2", Names='{"a","b"}', MaxOps=3, MaxDepth=3, Interrupts="FALSE"),
+                           job("a3", MaxOps=3, GlobalSets="GlobalsQuick"),
+                           job("a4", MaxOps=6, MaxDepth=2, Interrupts="FALSE", OnlyOps="OpsLeafLoops")], parallel=4)
     finally:
         cleanup_gen()
     cases = []
@@ -135,7 +136,7 @@ def run(tier: str) -> int:
         if r.violated:
             ck.fail(f"Scope.tla {r.violated} violated", {"tlc": r.out[-3000:]})
         cases += r.emitted
-    cap = 12000 if tier == "quick" else 300000
+    cap = 12000 if tier == "quick" else 60000
     nleaf = lambda c: sum(1 for r in c["prog"] if r["op"] in ("incleaf", "renderleaf"))
     multi = [c for c in cases if nleaf(c) >= 2]           # the shared partial visited several times: always replayed, reads only in the leaf
     rest = [c for c in cases if nleaf(c) < 2]
